@@ -18,6 +18,14 @@ Simulated path (statistical, 6-sigma Monte-Carlo tolerances): `subsample_genotyp
      "nsub/2 of the called individuals at random" (exact by enumeration; K against the model's `projInb` row); and
      `check_sim_deep`: deep coverage with sim_threshold = 0 / 1e-30 / 1e-20, nsub < nseq, 1 and 2 populations, nsim 2000 / 1000:
      every simulated table = projection row(s) of its allele counts, corrected model = projected model within the summed bound.
+Round 4: definedness (`check_defined`: coverage distributions with exactly zero mass at depth 0 / 0 and 1 / everywhere but one
+     depth, all floating-point division/invalid warnings turned into errors — no `0 ** -1`, no nan; K: the generated definedness
+     conditions `lp_defined`); the proved l1 deep-coverage bound `C18_deep_coverage` evaluated on the real code (`deep_l1_check`,
+     K `projected` = the model's plain projection against projection_matrix / Spectrum.project, K `deepbound` = the bound's
+     constants against an independent formula); the limit of the F > 0 branch of projection_matrix (`check_projmix0`: the model's
+     exact Hardy-Weinberg mixture against the code's F = 0 matrix and, exactly, against the hypergeometric rows); and
+     `check_part_cache`: after every case that runs the calling model, every entry of `Numerics._part_cache` is deep-compared
+     with an independent enumeration (cached partition lists must never be modified by their users).
 History: every single-function case starts from freshly reloaded LowPass module state, and `check_history` builds several
      low-pass functions in ONE process with the same population names (same sizes/options but different coverage; same
      coverage but different Fx / sizes / threshold / nsim / model), evaluates them in shuffled orders and repeatedly, and
@@ -230,6 +238,132 @@ def check_genotype_type(chk, ctx, nseq, F):
         if [list(a) for a in parts[x]] != [list(a) for a in p1] or q.shape != q1.shape or float(np.max(np.abs(q - q1))) > 1e-12:
             chk.fail('partitions_and_probabilities:types-differ', "allele count %d: 'genotype' gives %r, 'allele_frequency' gives %r" % (x, q.tolist(), q1.tolist()), inp)
             return
+
+
+# --------------------------------------------------------------------------- cached partitions must never be modified by their users
+_CACHE_VERIFIED = {}
+
+def check_part_cache(chk, ctx, inp, where):
+    """every entry of `Numerics._part_cache` equals an independent enumeration of the sorted bounded vectors of that length
+    and sum (deep comparison).  An entry found modified is reported and removed, so that the next case starts from a sound
+    cache and is judged on its own."""
+    N = ctx['dadi'].Numerics
+    cache = getattr(N, '_part_cache', None)
+    if not isinstance(cache, dict):
+        return True
+    ok = True
+    for key in list(cache.keys()):
+        try:
+            cur = tuple(tuple(p) for p in cache[key])
+        except Exception:
+            cur = ('unreadable', repr(cache[key])[:80])
+        want = _CACHE_VERIFIED.get(key)
+        if want is None:
+            x, n, minv, maxv = key
+            try:
+                if float(n) == int(n) and int(n) <= 12 and float(x) == int(x):
+                    want = tuple(tuple(p) for p in brute_parts(int(x), int(n), int(minv), int(maxv)))
+                else:
+                    want = tuple(tuple(p) for p in N.part(x, n, minv, maxv))
+            except Exception:
+                continue
+            if cur == want:
+                _CACHE_VERIFIED[key] = want
+        if cur != want:
+            ok = False
+            bad = next((p for p in cur if p not in set(want)), None)
+            chk.fail('cached_part:cache-mutated:%s' % where,
+                     'after %s the cached partition list Numerics._part_cache[%r] is no longer the list of the sorted vectors of length %r and sum %r: '
+                     '%d entries (expected %d), e.g. %r — a function that received the cached list changed it in place, every later use of '
+                     'cached_part(%r, %r) is wrong' % (where, key, key[1], key[0], len(cur), len(want), bad, key[0], key[1]), inp)
+            del cache[key]
+            pc = getattr(N, '_part_precalc_cache', None)
+            if isinstance(pc, dict): pc.pop(key, None)
+    chk.l3(('part-cache', where, len(cache) > 0))
+    return ok
+
+# --------------------------------------------------------------------------- definedness: no 0 ** -1, no x / 0
+def gen_zero_cov(rng):
+    """coverage distributions with *exactly* zero mass at depth 0 (and often 1): the cases in which a wrongly guarded power of
+    coverage_distribution[1][0] is `0 ** -1`"""
+    kind = ['no-depth0', 'no-depth01', 'depth1-only', 'point', 'deep', 'depth0-tiny', 'two-depths'][int(rng.integers(7))]
+    if kind == 'no-depth0':
+        D = int(rng.integers(2, 12)); w = rng.uniform(0.05, 1, D + 1); w[0] = 0.0
+    elif kind == 'no-depth01':
+        D = int(rng.integers(3, 12)); w = rng.uniform(0.05, 1, D + 1); w[0] = 0.0; w[1] = 0.0
+    elif kind == 'depth1-only':
+        w = np.array([0.0, 1.0])
+    elif kind == 'point':
+        D = int(rng.integers(2, 60)); w = np.zeros(D + 1); w[D] = 1.0
+    elif kind == 'deep':
+        return gen_cov(rng, 'deep')[0], 'deep'
+    elif kind == 'depth0-tiny':
+        D = int(rng.integers(2, 8)); w = rng.uniform(0.05, 1, D + 1); w[0] = 0.0
+    else:
+        D = int(rng.integers(2, 30)); w = np.zeros(D + 1); w[1] = rng.uniform(0.1, 0.9); w[D] = 1 - w[1]
+    T = 4096
+    iw = np.floor(w / w.sum() * T).astype(int)
+    k = 1 + int(np.argmax(iw[1:])); iw[k] += T - iw.sum()
+    c = (iw / T).tolist()
+    if kind == 'depth0-tiny':
+        c[0] = 2.0 ** -40; c[k] -= 2.0 ** -40       # positive but tiny: the guarded and the unguarded forms agree here
+    return c, kind
+
+def check_defined(chk, ctx, c, nseq, nsub, F):
+    """with every floating-point divide-by-zero / invalid-operation turned into an exception, the three coverage functionals
+    evaluate without one and give finite numbers in [0, 1] — in particular when P(depth 0) is exactly 0"""
+    LP = LPmod(ctx)
+    inp = dict(kind='defined', cov=c, nseq=nseq, nsub=nsub, F=F)
+    chk.l3(('defined', c[0] == 0, len(c) > 1 and c[1] == 0, nseq, F == 0))
+    res = {}
+    for name, call in (('probability_of_no_call', lambda: LP.probability_of_no_call_1D_GATK_multisample(covarr(c), nseq, F)),
+                       ('calling_error_matrix', lambda: LP.calling_error_matrix(covarr(c), nsub, F)),
+                       ('probability_enough_individuals_covered', lambda: LP.probability_enough_individuals_covered(covarr(c), nseq, nsub))):
+        try:
+            with np.errstate(divide='raise', invalid='raise'), warnings.catch_warnings():
+                warnings.simplefilter('error', RuntimeWarning)
+                v = np.asarray(call(), dtype=float)
+        except (FloatingPointError, ZeroDivisionError, RuntimeWarning) as e:
+            chk.fail('%s:undefined-arithmetic' % name, '%s evaluates an undefined operation (%r) for a coverage distribution with P(depth 0) = %r, P(depth 1) = %r, '
+                     'n_sequenced=%d, F=%r: a power of a zero base with a negative exponent or a division by zero is not guarded' % (name, e, c[0], c[1] if len(c) > 1 else None, nseq, F), inp)
+            res[name] = False; continue
+        except Exception as e:
+            chk.fail('%s:raises:%s' % (name, type(e).__name__), '%s raises %r' % (name, e), inp); res[name] = False; continue
+        res[name] = bool(np.all(np.isfinite(v)))
+        if not res[name] or v.min() < -1e-12 or v.max() > 1 + 1e-9:
+            chk.fail('%s:nonfinite' % name, '%s returns %r for P(depth 0) = %r' % (name, v.ravel()[:8].tolist(), c[0]), inp)
+    if have_driver(ctx):
+        out = ctx['driver'].ask('lp_defined %s %d %d' % (fmt_list(c), nseq, nsub))
+        mine = 'ok %d,%d,%d' % (int(res.get('probability_of_no_call', False)), int(res.get('calling_error_matrix', False)), int(res.get('probability_enough_individuals_covered', False)))
+        chk.k_ok('defined') if out == mine else chk.k_bad('defined', inp, mine, out, None)
+
+# --------------------------------------------------------------------------- the limit of the F > 0 branch of projection_matrix
+def check_projmix0(chk, ctx, nseq, nsub):
+    """the Hardy-Weinberg mixture of individual-subsampling rows (limit of the inbreeding branch as F -> 0+, proved) is the
+    hypergeometric matrix of the F = 0 branch: exact inside the model, numerical against the code (both branches)"""
+    LP = LPmod(ctx)
+    inp = dict(kind='projmix0', nseq=nseq, nsub=nsub)
+    try:
+        M0 = np.array(LP.projection_matrix(nseq, nsub, 0), dtype=float)
+        Mt = np.array(LP.projection_matrix(nseq, nsub, 2.0 ** -30), dtype=float)
+    except Exception as e:
+        chk.fail('projection_matrix:raises:%s' % type(e).__name__, 'raises %r' % (e,), inp); return
+    chk.l3(('projmix0', nseq, nsub))
+    ex = np.array([exact_projrow(nseq, nsub, Fraction(1, 2 ** 30), af) for af in range(nseq + 1)]) if nseq <= 8 else None
+    d = float(np.max(np.abs(Mt - M0)))
+    if d > 4 * nseq * 2.0 ** -30 + RTOL:
+        chk.fail('projection_matrix:small-F:continuity', 'projection_matrix(%d,%d,F=2^-30) differs from the F=0 matrix by %.3g' % (nseq, nsub, d), inp)
+    if ex is not None and float(np.max(np.abs(Mt - ex))) > RTOL:
+        chk.fail('projection_matrix:value', 'projection_matrix(%d,%d,2^-30) differs from the exact mixture by %.3g' % (nseq, nsub, float(np.max(np.abs(Mt - ex)))), inp)
+    if have_driver(ctx):
+        out = ctx['driver'].ask('lp_projmix0 %d %d' % (nseq, nsub))
+        if out.startswith('ok ') and '|' in out:
+            rows, mx = out[3:].split('|')
+            ok, err, _ = close(M0, parse_rows(rows), rtol=RTOL)
+            if ok and mx == '0': chk.k_ok('projmix0')
+            else: chk.k_bad('projmix0', inp, M0, out[:300], err)
+        else:
+            chk.k_bad('projmix0', inp, M0, out, None)
 
 # --------------------------------------------------------------------------- matrices
 def row_checks(chk, M, name, inp, mean_target=None):
@@ -592,6 +726,63 @@ def deep_check(chk, ctx, case, model, out, inp, tag=''):
         return False
     return True
 
+def deep_bound_formula(pops):
+    """C18_deep_coverage's constant, written out independently of the model: D = smallest depth with positive probability in
+    any population; (1 + max nseq * D) 2^-D + (#populations) * 4 * max nsub * 2^-D"""
+    D = min(min(i for i, v in enumerate(p['cov']) if v != 0) for p in pops)
+    two = Fraction(1, 2 ** D)
+    eps = (1 + max(p['nseq'] for p in pops) * D) * two
+    delta = 4 * max(p['nsub'] for p in pops) * two
+    return D, eps + len(pops) * delta, eps, delta
+
+def deep_l1_check(chk, ctx, case, model, out, inp, tag=''):
+    """the proved bound (C18_deep_coverage / _analytic) on the real code: sum_j |corrected_j - projected_j| <= deepBound * sum_i |model_i|
+    whenever no entry on the support of the model is simulated (sim_threshold >= (1 + max nseq D) 2^-D), the plain projection
+    being the model pushed through projection_matrix (for F = 0: Spectrum.project).  K: the model's `projected (refAxesOf pops)`
+    against that projection, and the bound's constants against the independent formula."""
+    LP = LPmod(ctx)
+    pops = case['pops']; d = len(pops)
+    Fs = [0.0 if case.get('Fx_none') else p['F'] for p in pops]
+    D, bound, eps, delta = deep_bound_formula(pops)
+    if D < 2 or case['thr'] < float(eps) or any(abs(sum(Fraction(v) for v in p['cov']) - 1) != 0 for p in pops):
+        return
+    mdata = model_data(model)
+    ref = mdata.copy()
+    for ax, (p, F) in enumerate(zip(pops, Fs)):
+        P = np.array(LP.projection_matrix(p['nseq'], p['nsub'], F), dtype=float)
+        ref = np.moveaxis(np.tensordot(ref, P, axes=([ax], [0])), -1, ax)
+    odata = np.asarray(np.ma.getdata(out), dtype=float)
+    tot = float(np.abs(mdata).sum()); scale = max(float(np.max(np.abs(mdata))), 1e-300)
+    chk.l3(('deep-l1', d, regime_of(case), any(F > 0 for F in Fs), any(p['nsub'] < p['nseq'] for p in pops)))
+    chk.stat('deep_l1_%dpop' % d)
+    if mdata[tuple([0] * d)] != 0:
+        return
+    l1 = float(np.abs(odata - ref).sum())
+    lim = float(bound) * tot + RTOL * scale * odata.size
+    chk.stats['deep_l1_max_ratio'] = max(chk.stats.get('deep_l1_max_ratio', 0.0), l1 / max(float(bound) * tot, 1e-300))
+    if not np.isfinite(l1) or l1 > lim:
+        chk.fail('make_low_pass_func:deep-coverage:l1', '%severy individual has depth >= %d, sim_threshold=%r: the corrected model is at l1 distance %.3g from the model '
+                 'projected with projection_matrix, more than the proved bound ((1 + max nseq*D) + %d*4*max nsub) 2^-D * total = %.3g' % (tag, D, case['thr'], l1, d, lim), inp)
+    if all(F == 0 for F in Fs):
+        sp = model.project([p['nsub'] for p in pops])
+        sm = ~np.array(np.ma.getmaskarray(sp))
+        if float(np.max(np.abs(np.asarray(np.ma.getdata(sp), dtype=float)[sm] - ref[sm]))) > RTOL * scale:
+            chk.fail('projection_matrix:vs-project', '%sthe model pushed through projection_matrix(F=0) differs from Spectrum.project' % tag, inp)
+    if have_driver(ctx) and not any(0 < F < TINY_F for F in Fs):
+        popstr = ';'.join('%s@%d@%d@%s' % (fmt_list(p['cov']), p['nseq'], p['nsub'], rat(F)) for p, F in zip(pops, Fs))
+        o = ctx['driver'].ask('lp_projected %s %s' % (popstr, fmt_nd(mdata)))
+        if o.startswith('ok '):
+            ok, err, _ = close(ref, parse_ndf(o[3:]), rtol=RTOL, atol=RTOL * scale)
+            chk.k_ok('projected') if ok else chk.k_bad('projected', inp, ref, o[:300], err)
+        else:
+            chk.k_bad('projected', inp, ref, o[:300], None)
+        o = ctx['driver'].ask('lp_deepbound %s' % popstr)
+        mine = [float(D), float(bound), float(eps), float(delta)]
+        if o.startswith('ok ') and np.allclose(parse_floats(o[3:]), mine, rtol=1e-12, atol=0):
+            chk.k_ok('deepbound')
+        else:
+            chk.k_bad('deepbound', inp, mine, o, None)
+
 def model_corrected(ctx, case, mdata, sim_outputs):
     """the Lean model's corrected spectrum for the case's OWN coverage distributions (simulated tables as given);
     returns (use_sim mask, array) or an error string"""
@@ -633,6 +824,8 @@ def check_lowpass(chk, ctx, case, do_model=True):
     tot_in = float(mdata.sum()); tot_out = float(vis.sum()); scale = max(float(np.max(np.abs(mdata))), 1e-300)
     if case.get('deep'):
         deep_check(chk, ctx, case, model, out, inp)
+        deep_l1_check(chk, ctx, case, model, out, inp)
+    check_part_cache(chk, ctx, inp, 'make_low_pass_func')
     sim_outputs = {}; use_sim_mat = None; pn = None
     if pre is None:
         chk.stat('precalc_not_observed')
@@ -871,6 +1064,7 @@ def check_sim_deep(chk, ctx, case):
         j = tuple(int(v) for v in np.unravel_index(int(np.argmax(w)), w.shape))
         chk.fail('make_low_pass_func:deep-coverage:simulated', 'deep coverage (depth >= %d) with sim_threshold=%r, nseq=%r nsub=%r: the corrected model differs from the projected model '
                  'at entry %r by %.3g (%.1f%% of the largest projected entry; Monte-Carlo bound %.3g)' % (Dmin, case['thr'], nseq, nsub, j, float(dev[j]), 100 * float(dev[j]) / max(float(expect.max()), 1e-300), float(lim[j])), inp)
+    check_part_cache(chk, ctx, inp, 'simulated-deep')
 
 def gen_sim_deep(rng, tier, d=1):
     hi = {1: 12, 2: 6}[d]
@@ -970,6 +1164,7 @@ def check_history(chk, ctx, sc):
         chk.fail('make_low_pass_func:history:raises:%s' % type(e).__name__, 'evaluating the functions in order %r raises %r' % (order, e), inp); return
     finally:
         fresh_LP(ctx)            # leave no state behind for the next case
+    check_part_cache(chk, ctx, inp, 'history-session')
     for k, c in enumerate(funcs):
         model, ref, sims = refs[k]
         mdata = model_data(model); scale = max(float(np.max(np.abs(mdata))), 1e-300)
@@ -1003,6 +1198,9 @@ def check_history(chk, ctx, sc):
             # (c) deep coverage
             if c.get('deep'):
                 deep_check(chk, ctx, c, model, out, inp, tag)
+                deep_l1_check(chk, ctx, c, model, out, inp, tag)
+    # (d) the cached genotype partitions are what they were (whatever the session did with them)
+    check_part_cache(chk, ctx, inp, 'history')
 
 def gen_history(rng, tier, what=None, d=None, regime=None, reference='reload'):
     whats = ['cov-differs', 'cov-differs', 'cov-differs', 'Fx-differs', 'nsub-differs', 'nseq-differs', 'thr-differs', 'nsim-differs', 'model-differs', 'mixed']
@@ -1157,15 +1355,21 @@ def run(chk, ctx):
     chk.unproved = [
         'round-off: agreement of the float code with the exact model/oracle is numerical (1e-9 of the array scale); for 0 < F < 2^-18 the pinned '
         'log-gamma route of part_inbreeding_probability is ill-conditioned and is judged by the exact oracle only',
-        'continuity as F -> 0 is proved in algebraic form (C18_F_continuity_partial: the F > 0 weights are polynomials in F whose F = 0 '
-        'normalisation is the F = 0 branch); the epsilon-delta statement and the equality "mixture of individual-subsampling rows at F = 0 = '
-        'hypergeometric row" (continuity of projection_matrix across its two branches) are numerical (|PM(F) - PM(0)| <= 4*nseq*F + 1e-9)',
-        'deep-coverage limit: exact identity proved under the limiting hypotheses (no-call = 0, prob_het_err = 0, P(depth 0) = 0); for finite '
-        'depth D the harness checks |corrected - projection| <= sum_p (D + 2 + nsub_p) 2^-D total on the real code',
-        'the simulated regime (simulate_GATK_multisample_calling) is not modelled: its outputs enter the model as parameters with total <= 1, '
-        'checked at run time (non-negative, total 1) with fixed rng seeds',
+        'continuity as F -> 0+ is proved (C18_F_continuity: Filter.Tendsto of every partition probability of the F > 0 branch to the F = 0 branch; '
+        'C18_F_continuity_matrices_partial: calling-error matrix, no-call probabilities, and the F > 0 branch of projection_matrix tends to the '
+        'Hardy-Weinberg mixture of individual-subsampling rows); NOT proved: that this mixture equals the hypergeometric row of the F = 0 branch '
+        '(double counting over haplotype configurations) - checked exactly inside the model for n_sequenced <= 12/18 (K projmix0) and numerically '
+        'on the code (|PM(F) - PM(0)| <= 4*nseq*F + 1e-9)',
+        'deep coverage: proved for any number of populations as an l1 bound (C18_deep_coverage: |corrected - projection|_1 <= ((1 + max nseq D) + '
+        'd*4*max nsub) 2^-D |model|_1 + deviation of the simulated tables; exact identity C18_deep_exact in the limit) and evaluated on the real code; '
+        'the entry-wise bound sum_p (D + 2 + nsub_p) 2^-D total of the older oracle is still checked numerically',
+        'the simulated regime (simulate_GATK_multisample_calling) is not modelled: its outputs enter the model as parameters (total <= 1 for the '
+        'total-mass theorem, l1 distance sigma from the projection row for the deep-coverage theorem), checked at run time with fixed rng seeds '
+        '(closure) and statistically (deep coverage, 6 sigma)',
         'numpy glue of lowpass_func (masked-array dot treats masked entries as 0, swapaxes, outer product of the 1-D no-call vectors, '
         'axis-by-axis application vs the product kernel) is tied by correspondence, not by translation',
+        'the effect table (C18_cached_not_mutated) is a may-alias analysis of the source text of LowPass.py / the cached_part users of Numerics.py; '
+        'mutation through other modules or through numpy views of python lists is outside it (the L3 cache check covers the calls exercised)',
         'row 0 of the coverage array is assumed to be arange(D+1) (as compute_cov_dist produces)']
     chk.assumptions += ['coverage distributions have positive mass on some depth >= 1 (otherwise prob_het_err is 0/0 in the code) and sum to <= 1',
                         'sim_outputs of the simulated regime are parameters of the model (their closure properties are checked on the real code)']
@@ -1208,6 +1412,18 @@ def run(chk, ctx):
         check_callmat(chk, ctx, c, nsub, F)
         check_nocall(chk, ctx, c, nseq, F)
         check_enough(chk, ctx, c, nseq, nsub)
+    check_part_cache(chk, ctx, dict(kind='cache-family', family='helpers'), 'helper-functions')
+    # ---- definedness: exactly zero mass at depth 0 / 1 (no 0 ** -1, no nan), every partition of every allele count
+    for it in range(60 if quick else 400):
+        c, ck = gen_zero_cov(rng); chk.stat('zerocov_' + ck)
+        nseq, nsub = gen_sizes(rng, 12)
+        check_defined(chk, ctx, c, nseq, nsub, gen_F(rng))
+        if it % 3 == 0:
+            check_nocall(chk, ctx, c, nseq, gen_F(rng))
+    # ---- the limit of the inbreeding branch of projection_matrix at F = 0+ is the hypergeometric matrix
+    for nseq in range(2, (12 if quick else 18) + 1, 2):
+        for nsub in range(2, nseq + 1, 2):
+            check_projmix0(chk, ctx, nseq, nsub)
     # ---- corrected model
     plan = []
     for d in (1, 2, 3):
@@ -1264,6 +1480,10 @@ def replay(chk, ctx, data):
         check_sim_deep(chk, ctx, case_from_json(inp))
     elif kind == 'subsample':
         check_subsample(chk, ctx, inp)
+    elif kind == 'defined':
+        check_defined(chk, ctx, [float(v) for v in inp['cov']], int(inp['nseq']), int(inp['nsub']), float(inp['F']))
+    elif kind == 'projmix0':
+        check_projmix0(chk, ctx, int(inp['nseq']), int(inp['nsub']))
     elif kind == 'history':
         check_history(chk, ctx, dict(what=inp.get('what', 'replay'), funcs=[case_from_json(c) for c in inp['funcs']], order=[int(k) for k in inp['order']],
                                      build_first=bool(inp.get('build_first')), reference=inp.get('reference', 'reload')))
